@@ -117,10 +117,10 @@ CLAIMS = {
         "(single signature, layout 1) the run ends with exactly the C02 verdict / error of (sig, pk) (singleSigLock_run, singleSigLock_accepts_iff); "
         "(layout 2, key committed by hash) an error unless the supplied key hashes to the committed hash, then exactly the C02 verdict under the supplied key (singleSigLock2_run); "
         "(m-of-n multisig) exactly the C03 specification SigPure.multisig of the witness's m signature items against the lock's keys (multisigLock_run, through checkMultisig_instruction) - so by C03 true only with pairwise distinct signatures matched to m different listed keys; "
-        "(script hash) a script that does not hash to the committed hash ends the lock in an error before OP_EVAL, only the stack changed (scripthashLock_rejects); one that does is evaluated and the lock ends exactly as that script does (scripthashLock_accepts). "
+        "(script hash) a script that does not hash to the committed hash ends the lock in an error before OP_EVAL, only the stack changed (scripthashLock_rejects); one that does is evaluated and the lock ends exactly as that script does (scripthashLock_accepts); (graftroot) the key path ends with exactly the C02 verdict under the lock's key (graftrootLock_keypath_run), and a surrogate whose 64-byte signature does not verify under the lock's key over the surrogate's bytes ends the lock in an error at the VERIFY before OP_EVAL - plugin log, random counter and function heap untouched, the surrogate is never evaluated (graftrootLock_surrogate_rejects). "
         "With C02.4 this gives completeness for every permitted flag and makes 'another key / other covered fields / non-permitted flag / different committed script' exactly the C02 / hash rejection conditions. "
         "Tie: bytes of the single-sig (both layouts), multisig, script-hash, graftroot and graftap lock builders vs the model's builders; verdicts of every witness kind against every lock kind (compatibility table), witnesses by another key, changed covered / excluded sigfields, non-permitted flags, different committed / surrogate scripts, foreign-signed surrogates, one key supplying two distinct signatures to a 2-of-3, holder + outsider - judged on the implementation alone; every list also run on the model.",
-   note="per-lock theorems: single-sig (both layouts), multisig, script-hash. Graftroot and graftap (taproot of a graftroot script; OP_TAPROOT itself is covered by C05) are tied by builder-bytes comparison and verdict matrices, not by a per-lock theorem. Collision resistance of SHAKE-256 is not assumed: hash conditions are stated as digest equalities.",
+   note="per-lock theorems: single-sig (both layouts), multisig, script-hash, graftroot (key path; rejection of a foreign-signed surrogate). The accepting surrogate path of graftroot and the graftap lock (taproot of a graftroot script; OP_TAPROOT itself is covered by C05) are tied by builder-bytes comparison and verdict matrices, not by a per-lock theorem. Collision resistance of SHAKE-256 is not assumed: hash conditions are stated as digest equalities.",
    technique="Lean 4 proof (byte-level big-step symbolic execution of the locks on the VM model, refinement to the C02 / C03 pure specs) + verdict-matrix oracle + differential correspondence of builder bytes and runs",
    design="§5 C13"),
  'C14': dict(
